@@ -48,10 +48,42 @@ def base_model(rng):
     for t in types:
         if rng.random() < 0.25:
             t["dirs"].append("tsd")
+    covariant_implementations(rng, m)
     split_into_extensions(rng, m)
     if rng.random() < 0.4 and set(schema) == {"query"} and schema["query"] == "Query":
         m["schema"] = {}                    # default root names, no schema definition
     return m, s
+
+
+def covariant_implementations(rng, m):
+    """valid by IsValidImplementationFieldType: the object's field is non-null where the interface's is nullable, or names
+    an object type that implements the interface / belongs to the union the interface field names (behind wrappers)"""
+    byname = {t["name"]: t for t in m["types"]}
+
+    def narrow(t):
+        if t[0] == "nonnull":
+            return NN(narrow(t[1]))
+        if t[0] == "list":
+            return L(narrow(t[1]))
+        d = byname.get(t[1])
+        if d and d["kind"] == "INTERFACE":
+            impl = [o["name"] for o in m["types"] if o["kind"] == "OBJECT" and t[1] in o.get("interfaces", [])]
+            if impl and rng.random() < 0.7:
+                return N(rng.choice(impl))
+        if d and d["kind"] == "UNION" and d["members"] and rng.random() < 0.7:
+            return N(rng.choice(d["members"]))
+        return t
+
+    for o in m["types"]:
+        if o["kind"] != "OBJECT":
+            continue
+        inherited = iface_field_names(m, o)
+        for f in o["fields"]:
+            if f["name"] in inherited and rng.random() < 0.4:
+                t = narrow(f["type"])
+                if t[0] != "nonnull" and rng.random() < 0.5:
+                    t = NN(t)
+                f["type"] = t
 
 
 def iface_field_names(m, t):
@@ -103,13 +135,14 @@ def fields_sdl(fields):
             args = "(" + ", ".join("%s: %s%s" % (a["name"], type_sdl(a["type"]),
                                                  " = " + lit_sdl(a["default"]) if a.get("default") is not None else "")
                                    for a in f["args"]) + ")"
-        fl.append("  %s%s: %s" % (f["name"], args, type_sdl(f["type"])))
+        fl.append("  %s%s: %s%s" % (f["name"], args, type_sdl(f["type"]), dirs_sdl(f.get("dirs", []))))
     return "{\n" + "\n".join(fl) + "\n}"
 
 
 def inputs_sdl(fields):
-    return "{\n" + "\n".join("  %s: %s%s" % (f["name"], type_sdl(f["type"]),
-                                             " = " + lit_sdl(f["default"]) if f.get("default") is not None else "")
+    return "{\n" + "\n".join("  %s: %s%s%s" % (f["name"], type_sdl(f["type"]),
+                                               " = " + lit_sdl(f["default"]) if f.get("default") is not None else "",
+                                               dirs_sdl(f.get("dirs", [])))
                              for f in fields) + "\n}"
 
 
@@ -121,7 +154,9 @@ def body_sdl(t, ext=False):
     if k == "SCALAR":
         return "%sscalar %s%s" % (pre, name, d)
     if k == "ENUM":
-        return "%senum %s%s%s" % (pre, name, d, " { %s }" % " ".join(t["values"]) if t.get("values") else "")
+        vd = t.get("value_dirs") or {}
+        return "%senum %s%s%s" % (pre, name, d, " { %s }" % " ".join(v + dirs_sdl(vd.get(v, [])) for v in t["values"])
+                                  if t.get("values") else "")
     if k == "INPUT":
         return "%sinput %s%s%s" % (pre, name, d, " " + inputs_sdl(t["fields"]) if t.get("fields") else "")
     if k == "UNION":
@@ -192,11 +227,22 @@ def model_coq(m):
                                             coq_list([coq_string(d) for d in e["dirs"]])))
         else:
             exts.append("(XType %s %s %s)" % (coq_string(e["target"]), typedef_coq(e), coq_list([coq_string(d) for d in e["dirs"]])))
-    return ("{| s_types := %s; s_dirdefs := %s; s_exts := %s; s_schema := %s; s_schema_dirs := %s; s_scalar_impls := %s |}" % (
+    md = []
+    for holder in list(m["types"]) + [e for e in m["exts"] if "target" in e]:
+        tn = holder.get("target") or holder["name"]
+        for f in holder.get("fields", []) or []:
+            if f.get("dirs"):
+                md.append("(%s, %s, %s)" % (coq_string(tn), coq_string(f["name"]),
+                                            coq_list([coq_string(d.split("(")[0]) for d in f["dirs"]])))
+        for v, ds in (holder.get("value_dirs") or {}).items():
+            if ds:
+                md.append("(%s, %s, %s)" % (coq_string(tn), coq_string(v), coq_list([coq_string(d.split("(")[0]) for d in ds])))
+    return ("{| s_types := %s; s_dirdefs := %s; s_exts := %s; s_schema := %s; s_schema_dirs := %s; s_scalar_impls := %s; "
+            "s_member_dirs := %s |}") % (
         types, dirdefs, coq_list(exts),
         coq_list(["(%s, %s)" % (coq_string(k), coq_string(v)) for k, v in m["schema"].items()]),
         coq_list([coq_string(d) for d in m["schema_dirs"]]),
-        coq_list([coq_string(x) for x in m["scalar_impls"]])))
+        coq_list([coq_string(x) for x in m["scalar_impls"]]), coq_list(md))
 
 
 # ------------------------------------------------------------------ violation catalogue
